@@ -427,6 +427,14 @@ class C19(Prop):
                 for res in ress:
                     if mine():
                         yield mk('c19.reply', m, 'obj:dict=%s:%s' % (cs, res), tag='reply-error')
+        # error objects whose OTHER members are unusual (round 11, C19r11): no message, a null / non-string message,
+        # extra members — the class raised is decided by the code alone
+        for mv in ('nomsg', 'msgnull', 'msgnum', 'extra'):
+            for cs in sorted(registered) + ['int=-99', 'int=0', 'absent']:
+                for m in ('call', 'getblock', 'getrawtransaction', 'getblockhash', 'sendrawtransaction'):
+                    for res in ('absent', 'v=ignored'):
+                        if mine():
+                            yield mk('c19.reply', m, 'obj:dict=%s~%s:%s' % (mv, cs, res), tag='reply-error-members')
         for m in methods:
             for o in range(len(OTHERS)):
                 for res in ('absent', 'v=x'):
@@ -686,7 +694,18 @@ class C19(Prop):
             members.append('"error": %s' % OTHERS[int(e[6:])])
         elif e.startswith('dict='):
             c = e[5:]
+            mv = None
+            if '~' in c:                       # message variant (invisible to the model: only the code decides)
+                mv, c = c.split('~', 1)
             inner = [] if c == 'empty' else ['"message": "scripted"']
+            if mv == 'nomsg':
+                inner = []
+            elif mv == 'msgnull':
+                inner = ['"message": null']
+            elif mv == 'msgnum':
+                inner = ['"message": 7']
+            elif mv == 'extra':
+                inner = ['"data": {"code": -1, "message": "inner"}', '"message": ""']
             if c.startswith('int=') or c.startswith('dec='):
                 inner.append('"code": %s' % c[4:])
             elif c in ('true', 'false', 'null'):
@@ -915,7 +934,18 @@ class C19(Prop):
             except Exception:  # noqa: BLE001
                 text = 'not-a-number'
             return '\t'.join(['c19.amountOut', c['args'][0], c['args'][1], text])
+        if c['op'] == 'c19.reply' and '~' in c['args'][1]:
+            return '\t'.join(['c19.reply', c['args'][0], self._strip_mv(c['args'][1])])
         return c.line
+
+    @staticmethod
+    def _strip_mv(spec):
+        """drop the message-variant marker of an error-object spec (`obj:dict=<mv>~<code>:<res>`)"""
+        if spec.startswith('obj:dict=') and '~' in spec:
+            head, rest = spec[len('obj:dict='):].split('~', 1)
+            if head in ('nomsg', 'msgnull', 'msgnum', 'extra'):
+                return 'obj:dict=' + rest
+        return spec
 
     def signature(self, c, io, mo):
         if c['op'] == 'c19.reply' and 'dict=unhashable=' in c['args'][1] and io == 'err:py:TypeError' \
@@ -928,6 +958,7 @@ class C19(Prop):
     def _server_sent_code(spec):
         """does the scripted reply carry a code of its own?  (otherwise the code inside the exception is one the
         library invents — -342 … -345 today — which the statement does not mention)"""
+        spec = C19._strip_mv(spec)
         if not spec.startswith('obj:dict='):
             return False
         code = spec[len('obj:dict='):].rsplit(':', 1)[0]
@@ -942,6 +973,7 @@ class C19(Prop):
         'rpc-error'  an error reply whose code is not an integer: no class is registered for it, so "raises an RPC
                      error (or the wrapper's documented IndexError), never a result";
         'strict'     everything else: the class registered for the code / the base class, or the result"""
+        spec = cls._strip_mv(spec)
         if spec == 'none' or spec.startswith(('nonutf8=', 'nonjson=')):
             return 'any-error'
         if spec.startswith('obj:dict='):
